@@ -379,7 +379,8 @@ def build(spec: dict):
         "data_file_name": spec.get("data_file_name", "data.raw") if use_df else None,
         "extensions": [(m, bytes.fromhex(p)) for m, p in spec.get("extensions", [])],
         "snapshots": snap_meta, "header_length": hlen, "incompatible": incompat if version == 3 else 0,
-        "metadata_bytes": cs + l1_clusters * cs * (1 + len(snap_l1)) + n_l2 * cs + cs + (offsets.get("snap") and cs or 0),
+        # header + extensions + backing name, L1 table(s), every L2 table, snapshot table (refcounts are not mapping metadata)
+        "metadata_bytes": len(blob0) + l1_size * 8 * (1 + len(snap_l1)) + n_l2 * cs + len(snaps) * 1200,
         "n_l2": n_l2,
     }
     return fh, dfh, bfh, layers, meta
